@@ -10,6 +10,7 @@ the file writer are uninterpreted functions of the uuid-free rows.
 -/
 import Rpft.Lemmas.ExportFuel
 import Rpft.Gen.Tables
+import Rpft.Canon
 set_option linter.unusedSimpArgs false
 set_option linter.unusedVariables false
 namespace Rpft.Props.C17
@@ -19,9 +20,11 @@ deriving instance DecidableEq for Except
 
 /-- T1: the constants of the model are the constants of the source (regenerated each run):
 the excluded headers are exactly the headers of the two uuid-carrying row fields the stripped row
-type drops; `"start"`; the `"|goto."` literal and `go_to` type of back-edge rows; the `|` of temp ids. -/
+type drops; `"start"`; the `"|goto."` literal and `go_to` type of back-edge rows; the `|` of temp ids.
+The two header lists are sets (compared up to order). -/
 theorem tables_agree :
-    Gen.exportExcludedHeaders = excludedHeaders ∧ Gen.exportIdFieldHeaders = idFieldHeaders ∧
+    Canon.sameSet Gen.exportExcludedHeaders excludedHeaders ∧
+    Canon.sameSet Gen.exportIdFieldHeaders idFieldHeaders ∧
     (∀ h ∈ idFieldHeaders, h ∈ excludedHeaders) ∧
     Gen.exportStartFrom = startStr ∧ Gen.exportStartDict = [(startStr, startStr)] ∧
     Gen.exportGotoIdLiteral = tempIdSeparator ++ gotoPrefix ∧ Gen.exportGotoType = gotoPayload ∧
